@@ -29,6 +29,17 @@ CHECKS['C01'] = dict(
          'dead components (notifyFinished contract); z3 + symx trusted, every path re-run natively.',
     design='DESIGN.md section 2 C01')
 
+CHECKS['C20'] = dict(
+    engine='symx+astsym+cvc5',
+    technique='SMT (QF_BVFP) over statements lifted from the AST of the real functions: cvc5/z3 decide path feasibility, assertions and lemmas over symbolic doubles and a symbolic stage count',
+    text='The stage-weight block of FlowIR.inject_default_values, the weight block of StatusMonitor.__init__, the accumulation loops '
+         'of CheckStatus and the progress expression of Controller.get_stage_status are lifted from the current source on every run and '
+         'executed over IEEE-754 terms. For <=2 (thorough <=3) stages every double is covered; lemmas cover every stage count up to 4096. '
+         'Every path model is replayed natively and the lifted block is compared with the real function on it.',
+    note='trusted: z3/cvc5 FP theories = CPython float semantics, the 400-line AST interpreter (validated against the real function on '
+         'every path model and on ~300 concrete inputs per run); logging statements skipped; tolerance n*2^-52 for "equals one".',
+    design='DESIGN.md section 2 C20')
+
 NOT_APPLICABLE = {
     'C07': 'round trip through the real file system, PyYAML (C) and Experiment construction: nothing on the path can be made symbolic; the technique would degenerate to example testing',
     'C15': 'quantifies over processes with different hash seeds / directory listing orders, which are not values inside one symbolic execution',
